@@ -1,3 +1,104 @@
 import Srctools.Wire
-/-! stub driver (echo) — replaced when the property's model exists. -/
-def main : IO Unit := Wire.main fun j => pure j
+import Srctools.Model.Tok
+import Srctools.Model.TokC
+import Srctools.Gen.Tok
+/-! Driver for the concrete chunked tokenizer model TokC (property C03).
+requests:
+  {"op":"run","opts":[b×7],"chunks":[[cp…]…],"str":b,"fold":[[cp,[cp…]]…]}
+      → {"toks":[[kind,[cp…],line]…],"err":null|[id,arg,line]}          (same shape as drv_tok "run")
+      "str":true = `Tokenizer(str)` (the single chunk is `_cur_chunk`), false = `Tokenizer(iterable)`
+  {"op":"exh","s":[cp…],"fold":[…]}
+      → {"a":[run×128],"n":N,"cdiff":[[oi,ci,run]…]}
+      for every option set oi (bit j of oi = option j) the abstract run TokA on s, and every TokC run
+      that DIFFERS from it: ci < N enumerates the chunkings — ci = 2*m+e, the text is cut after
+      position k iff bit k of m is set, e=1 inserts an empty chunk before every chunk and at the end;
+      ci = N is `Tokenizer(str)`.
+-/
+open Lean Tok
+
+def optsOf (j : Json) : Except String Opts := do
+  let a ← j.getArr?
+  if a.size != 7 then throw "opts: need 7 booleans"
+  let b (i : Nat) : Except String Bool := (a[i]!).getBool?
+  pure { stringBracket := ← b 0, stringParens := ← b 1, allowEscapes := ← b 2,
+         allowStarComments := ← b 3, preserveComments := ← b 4, colonOperator := ← b 5,
+         plusOperator := ← b 6 }
+
+def optsOfIndex (i : Nat) : Opts :=
+  { stringBracket := i.testBit 0, stringParens := i.testBit 1, allowEscapes := i.testBit 2,
+    allowStarComments := i.testBit 3, preserveComments := i.testBit 4, colonOperator := i.testBit 5,
+    plusOperator := i.testBit 6 }
+
+def foldOf (j : Json) : Except String (Char → List Char) := do
+  let a ← j.getArr?
+  let pairs ← a.toList.mapM fun p => do
+    let q ← p.getArr?
+    let k ← (q[0]!).getNat?
+    let v ← Wire.strOfCodes (q[1]!)
+    pure (Char.ofNat k, v)
+  pure fun c => match pairs.find? (·.1 == c) with
+    | some p => p.2
+    | none => [c]
+
+def runJson (r : Run) : Json :=
+  Json.mkObj [
+    ("toks", Json.arr (r.toks.map fun t =>
+      Json.arr #[Json.num (JsonNumber.fromNat t.kind), Wire.codesOfStr t.value,
+                 Json.num (JsonNumber.fromNat t.line)]).toArray),
+    ("err", match r.err with
+      | none => Json.null
+      | some (e, l) => Wire.ofNatList [e.code.1, e.code.2, l])]
+
+/-- Cut `s` after position `k` iff bit `k` of `m` is set (`pos` = index of the head of `s`). -/
+def cutAt (m : Nat) : Nat → List Char → List Char → List (List Char)
+  | _, [], cur => [cur.reverse]
+  | pos, c :: cs, cur =>
+    if m.testBit pos && !cs.isEmpty then (c :: cur).reverse :: cutAt m (pos + 1) cs []
+    else cutAt m (pos + 1) cs (c :: cur)
+
+def withEmpties (cs : List (List Char)) : List (List Char) :=
+  cs.foldr (fun c acc => [] :: c :: acc) [[]]
+
+def chunking (s : List Char) (ci : Nat) : List (List Char) :=
+  let base := if s.isEmpty then [] else cutAt (ci / 2) 0 s []
+  if ci % 2 == 1 then withEmpties base else base
+
+def handle (j : Json) : Except String Json := do
+  let op ← j.getObjValAs? String "op"
+  match op with
+  | "run" =>
+    let o ← optsOf (← j.getObjVal? "opts")
+    let cj ← (← j.getObjVal? "chunks").getArr?
+    let chunks ← cj.toList.mapM Wire.strOfCodes
+    let isStr ← j.getObjValAs? Bool "str"
+    let f ← foldOf (← j.getObjVal? "fold")
+    let src ← if isStr then
+        match chunks with
+        | [c] => pure (TokC.Src.ofString c)
+        | _ => throw "str: need exactly one chunk"
+      else pure (TokC.Src.ofChunks chunks)
+    pure (runJson (TokC.run Gen.Tok.tables o f src))
+  | "exh" =>
+    let s ← Wire.strOfCodes (← j.getObjVal? "s")
+    let f ← foldOf (← j.getObjVal? "fold")
+    let n := 2 * 2 ^ (s.length - 1)
+    let srcs : List (Nat × TokC.Src) :=
+      (List.range n).map (fun ci => (ci, TokC.Src.ofChunks (chunking s ci))) ++ [(n, TokC.Src.ofString s)]
+    let mut as : Array Json := #[]
+    let mut diffs : Array Json := #[]
+    for oi in [0:128] do
+      let o := optsOfIndex oi
+      let a := Tok.run Gen.Tok.tables o f s
+      as := as.push (runJson a)
+      for (ci, src) in srcs do
+        let c := TokC.run Gen.Tok.tables o f src
+        if c != a then
+          diffs := diffs.push (Json.arr #[Json.num (JsonNumber.fromNat oi), Json.num (JsonNumber.fromNat ci), runJson c])
+    pure (Json.mkObj [("a", Json.arr as), ("n", Json.num (JsonNumber.fromNat n)), ("cdiff", Json.arr diffs)])
+  | "chunking" =>   -- self-test of the enumeration shared with the harness
+    let s ← Wire.strOfCodes (← j.getObjVal? "s")
+    let ci ← j.getObjValAs? Nat "ci"
+    pure (Json.arr ((chunking s ci).map Wire.codesOfStr).toArray)
+  | _ => throw s!"unknown op {op}"
+
+def main : IO Unit := Wire.main handle
